@@ -267,6 +267,13 @@ template <class E, class W, int N> struct inst
   }
   static unsigned long long last_word(BF const &b) { return b.array().get_unsafe(words - 1); }
 
+  // the runtime stores only the first 3 violations per signature and shard: skip formatting the rest
+  static bool first_few(std::string const &sig)
+  {
+    static std::map<std::string, unsigned> n;
+    return ++n[sig] <= 3;
+  }
+
   // r must be observationally the set x: same members, and equal / hash-equal / mutually
   // is_subset_eq to the same set built canonically.
   static void expect(BF const &r, rset const &x, char const *fam, std::string const &what)
@@ -286,7 +293,13 @@ template <class E, class W, int N> struct inst
       return;
     if (dirty(r))
     {
-      vrt::fail(std::string(fam) + ":padding_bits_observable",
+      std::string const sig = std::string(fam) + ":padding_bits_observable";
+      if (!first_few(sig))
+      {
+        vrt::fail(sig, ""); // counted; only the first violations per signature are stored
+        return;
+      }
+      vrt::fail(sig,
                 vrt::fmt("%s has exactly the members %s, but against the same set built with set(): ==/!= consistent "
                          "with equality: %d, hashes equal: %d, is_subset_eq both ways: %d (last storage word 0x%llx has "
                          "bits at or above enumerator count %d set)",
@@ -672,7 +685,9 @@ template <class E, class W, int N> struct inst
           if (!(ok_eq && ok_hash && ok_sub))
           {
             std::string const &A = a.text, &B = b.text;
-            if (d)
+            if (d && !first_few("relations:padding_bits_observable"))
+              vrt::fail("relations:padding_bits_observable", "");
+            else if (d)
               vrt::fail("relations:padding_bits_observable",
                         vrt::fmt("A=%s B=%s ('~~S' = complement of the complementary set): ==:%d !=:%d (sets equal: %d), hashes equal: %d, "
                                  "is_subset_eq(A,B)=%d (A subset of B: %d); an operand has storage bits at or above enumerator count %d set",
@@ -814,9 +829,12 @@ template <class E, class W, int N> struct inst
       expect(n.real, to_set(n.ref, N), "expr", n.text);
       ++trees;
     };
-    if (!announce && !vrt::begin_text(name3.c_str(), name3 + ": recomputation of the depth<=2 values"))
+    if (!announce && !vrt::begin_text(name3.c_str(), name3 + ": recomputation of the depth<=2 values") &&
+        vrt::S().only_index == 0) // (a replay of a later case of this shard must still recompute)
     {
-      // resumed after a crash in the recomputation itself: nothing sensible can follow
+      // resumed after a crash in the recomputation itself (recorded as crash:expr3...): nothing
+      // sensible can follow, and the shard must not count as complete
+      vrt::S().stopped_early = true;
       return;
     }
     // depth 0
@@ -951,10 +969,13 @@ void register_inst(std::string const &ename, std::string const &wname, unsigned 
     vrt::shard("pair/" + base + "/" + std::to_string(p), [p, pair_parts] { I::pairs(p, pair_parts); });
   vrt::shard("expr/" + base, [] { I::expr(true, 0, 1); });
   for (unsigned p = 0; p < expr3_parts; ++p)
-    vrt::shard("expr3/" + base + "/" + std::to_string(p), [p, expr3_parts] {
-      if (vrt::thorough()) // depth 3 only in the thorough tier
-        I::expr(false, p, expr3_parts);
-    });
+    vrt::shard(
+        "expr3/" + base + "/" + std::to_string(p),
+        [p, expr3_parts] {
+          if (vrt::thorough()) // depth 3 only in the thorough tier
+            I::expr(false, p, expr3_parts);
+        },
+        300); // the unannounced recomputation of the depth<=2 values can take > 10 s on a loaded machine
 }
 
 template <class E, int N> void register_enum(std::string const &ename, unsigned pair_parts, unsigned expr3_parts)
